@@ -24,7 +24,7 @@ def install_chain_models(ip):
     ip.summaries["liesel/goose/pytree.py::concatenate_leaves"] = lambda ip_, args, kwargs: (PyObj("concat", parts=list(args[0]), axis=args[1]) if len(args[0]) else None)
 
 
-@unit("C08.epoch_chain_append", "C08", [f"{CH}::ListEpochChain.append", f"{CH}::ListChain.append", f"{CH}::ListEpochChain.epoch.fget"],
+@unit("C08.epoch_chain_append", "C08", [f"{CH}::ListEpochChain.__init__", f"{CH}::ListEpochChain.append", f"{CH}::ListChain.append", f"{CH}::ListEpochChain.epoch.fget"],
       assumptions=["np.arange / boolean-mask selection / np.s_ modelled as index sets; slice_leaves(chunk, [:, idx, ...]) keeps the time indices idx of every leaf"])
 def u_epoch_chain_append(ip):
     """Invariant _states_counter = 1 + #states seen. With thinning k > 1 the states kept from a chunk are exactly those whose
@@ -38,7 +38,12 @@ def u_epoch_chain_append(ip):
     apply = c.fresh("apply_thinning", Bool)
     cfg = new_obj(ip, f"{EPOCH}::EpochConfig", type=c.fresh("type", Int), duration=c.fresh("duration", Int), thinning=th, optional=None)
     existing = [PyObj("earlier_chunk")]
-    chain = new_obj(ip, f"{CH}::ListEpochChain", _chunks_list=list(existing), _epoch=cfg, _apply_thinning=apply, _states_counter=seen + 1)
+    # built by the REAL constructor (it records the epoch and the thinning flag); then generalised to "seen states so far" with the
+    # representation invariant _states_counter = 1 + seen
+    chain = ip.call(ip.repo(f"{CH}::ListEpochChain"), [cfg, apply], {})
+    c.oblige("constructor_counter_starts_at_one", chain.f["_states_counter"] == 1 and chain.f["_chunks_list"] == [], structural=True)
+    chain.f["_chunks_list"] = list(existing)
+    chain.f["_states_counter"] = seen + 1
     chunk = chunk_stub(ip, "chunk", s)
     c.cover("pre")
     ip.call(method(ip, chain, "append"), [chunk], {})
@@ -49,7 +54,7 @@ def u_epoch_chain_append(ip):
     if len(lst) == 2 and lst[1] is chunk:
         c.cover("stored_whole")
         c.oblige("whole_chunk_only_without_thinning", Not(thinning_on))
-        c.oblige("counter_invariant_without_thinning", Or(Not(thinning_on), chain.f["_states_counter"] == seen + 1 + s))
+        c.oblige("counter_invariant_without_thinning", Or(Not(thinning_on), chain.f["_states_counter"] == seen + 1 + s), structural=True)
     elif len(lst) == 2:
         c.cover("stored_thinned")
         sl = lst[1]
@@ -62,11 +67,11 @@ def u_epoch_chain_append(ip):
                      ForAll([i], Implies(And(i >= 0, i < s), f.keep(i) == ((seen + i + 1) % th == 0))))
             c.oblige("index_range_is_chunk", f.n == s)
         c.oblige("thinned_only_with_thinning", thinning_on)
-        c.oblige("counter_invariant", chain.f["_states_counter"] == seen + 1 + s)
+        c.oblige("counter_invariant", chain.f["_states_counter"] == seen + 1 + s, structural=True)
     else:
         c.cover("stored_nothing")
         c.oblige("nothing_stored_only_if_no_multiple_in_chunk", And(thinning_on, Not(Exists([i], And(i >= 0, i < s, (seen + i + 1) % th == 0)))))
-        c.oblige("counter_invariant", chain.f["_states_counter"] == seen + 1 + s)
+        c.oblige("counter_invariant", chain.f["_states_counter"] == seen + 1 + s, structural=True)
 
 
 @unit("C08.list_chain", "C08", [f"{CH}::ListChain.append", f"{CH}::ListChain.get", f"{CH}::ListChain._concatenate", "liesel/option.py::Option.is_some"])
@@ -252,3 +257,8 @@ def u_get_results(ip):
         c.oblige("kernel_states_iff_requested" + sfx, (ks is eng.f["_kernel_state_chain"]) if store else ks is None)
         c.oblige("kernels_by_position_key" + sfx, res.f["kernels_by_pos_key"].f["_value"] == {"a": "kernel_00", "b": "kernel_00", "c": "kernel_01"})
         c.oblige("kernel_classes_by_identifier" + sfx, list(res.f["kernel_classes"].f["_value"]) == ["kernel_00", "kernel_01"])
+
+
+from contracts.c07 import engine_init_unit  # noqa: E402
+
+engine_init_unit("C08.engine_init", "C08")
